@@ -281,8 +281,14 @@ def exec_case(case, H, rank_override=None, request=None, inputs=None, prompt='ca
         if not cfg.has_section(sec):
             cfg.add_section(sec)
         cfg.set(sec, opt, val)
-    store = H['inputs'].InputStore(cfg)
     R = Exec()
+    R.inputs_read = set()
+
+    class RecStore(H['inputs'].InputStore):
+        def __getitem__(self, key):
+            R.inputs_read.add(key)
+            return super().__getitem__(key)
+    store = RecStore(cfg)
     R.trace = []          # ('attempt', name) | ('prompt', input, answered, [needed_by], absent_before, readers_ok)
     R.unimpl_raised = []
     prompt_map = case['prompt'] if prompt == 'case' else prompt
@@ -291,10 +297,20 @@ def exec_case(case, H, rank_override=None, request=None, inputs=None, prompt='ca
     def prompt_fn(missing, needed_by):
         nb = [f.name() for f in needed_by]
         absent = not store.provides(missing)
+        readers_ok = True
+        for f in needed_by:        # each quoted line must, right now, block on exactly this input
+            try:
+                f.value(H['form'].FormAccessor(store, f.form()), H['form'].FormAccessor(R.solver._v, f.form()))
+                readers_ok = False
+            except H['inputs'].MissingInput as mi:
+                if mi.input_name != missing.name():
+                    readers_ok = False
+            except Exception:  # noqa
+                readers_ok = False
         if missing.name() in prompt_map:
-            R.trace.append(('prompt', missing.name(), 1, nb, absent))
+            R.trace.append(('prompt', missing.name(), 1, nb, absent, readers_ok))
             return (prompt_map[missing.name()], True)
-        R.trace.append(('prompt', missing.name(), 0, nb, absent))
+        R.trace.append(('prompt', missing.name(), 0, nb, absent, readers_ok))
         return (None, False)
 
     class LoggingSolver(solver_mod.Solver):
@@ -335,7 +351,7 @@ def encode(R, ids, H):
             return [0, 1, 0] + enc_inp(store, ids, H)
         if isinstance(e, AssertionError):
             return [0, 2, 0] + enc_inp(store, ids, H)
-        if isinstance(e, RecursionError):
+        if isinstance(e, RuntimeError):   # input not defined by its form (RecursionError before the fix)
             return [0, 3, 0] + enc_inp(store, ids, H)
         if isinstance(e, H['inputs'].InvalidInput):
             return [0, 4, ids[('input', e.input_name)]] + enc_inp(store, ids, H)
